@@ -249,6 +249,16 @@ func (w *WireGen) Chunks(m *Msg, depth int) [][]byte {
 			chunks = append(chunks, w.single(fd, *f.S, depth))
 		}
 	}
+	// an unpopulated singular scalar: some value first, then an explicit record of the zero value (last one wins:
+	// the field ends up unset); one chunk, so that the two records keep their order
+	if fs := m.D.Fields(); fs.Len() > 0 && r.Intn(5) == 0 {
+		fd := fs.Get(r.Intn(fs.Len()))
+		if m.Get(fd.Number()) == nil && !fd.IsList() && !fd.IsMap() && !inOneof(fd) && fd.Kind() != protoreflect.MessageKind && fd.Kind() != protoreflect.GroupKind && !fd.HasPresence() {
+			run := append(w.single(fd, w.G.Scalar(fd), depth), w.single(fd, Val{}, depth)...)
+			chunks = append(chunks, run)
+			w.mut("scalar-then-explicit-zero")
+		}
+	}
 	// unknown records already part of the value keep their order: one chunk
 	if len(m.Unk) > 0 {
 		chunks = append(chunks, m.Unk)
